@@ -48,17 +48,23 @@ def scenario_actions(w, A):
 
 def run(src, q):
     """q: shape, kind, target, name, os, level in {'net','gen','step'}, sens, fully_obs, flat_obs,
-    req_sym, any_state (drop Inv: used for reset)"""
+    flat_actions, req_sym, steps_sym, limit ('none'|'sym'), other_state (generative step on a
+    state object different from the current one)"""
     shape = Shape.from_json(q['shape'])
     kind, target = q['kind'], tuple(q['target'])
     level = q.get('level', 'net')
     sens = [tuple(a) for a in q['sens']] if q.get('sens') else None
-    w = scen.build_world(src, shape, sens=sens, step_limit=None)
+    symbolic = src.symbolic
+    limit = None
+    if q.get('limit') == 'sym':
+        limit = src.int('limit', 1, None)
+    w = scen.build_world(src, shape, sens=sens, step_limit=limit,
+                         host_fw=q.get('host_fw', True))
     A = scen.make_action(w, kind, target, q.get('name'), q.get('os'),
                          req_symbolic=q.get('req_sym', True))
     r = Rec()
     r.q, r.w, r.A = q, w, A
-    symbolic = src.symbolic
+    r.limit = limit
     draws = []
     if not symbolic:
         i = 0
@@ -69,7 +75,8 @@ def run(src, q):
 
     if level == 'net':
         net = m_net.Network(w.scenario)
-        state = m_state.State.generate_initial_state(net)
+        with stubs.sut():
+            state = m_state.State.generate_initial_state(net)
         env = None
     else:
         scenario_actions(w, A)
@@ -79,6 +86,8 @@ def run(src, q):
                                  flat_obs=q.get('flat_obs', True))
         net = env.network
         state = env.current_state
+        if q.get('other_state'):
+            state = state.copy()
     r.env, r.net, r.state = env, net, state
     r.pre = scen.symbolic_state(w, state)
     r.st = scen.zstatus(r.pre)
@@ -86,20 +95,43 @@ def run(src, q):
         sx.assume(scen.inv(w, r.st))
         sx.check_feasible()
     r.pre_rows = tensor_rows(state.tensor)
+    r.steps0 = None
+    if env is not None:
+        if q.get('steps_sym'):
+            env.steps = src.int('steps', 0, None)
+        r.steps0 = sx.znum(env.steps)
+        r.cur_rows0 = tensor_rows(env.current_state.tensor)
+        r.lastobs_rows0 = tensor_rows(env.last_obs.tensor)
+        r.cur_obj0, r.lastobs_obj0 = env.current_state, env.last_obs
 
+    r.lim = None
+    if q.get('goal_query') and env is not None:
+        with stubs.sut():
+            r.goal_cur = env.goal_reached()
+            r.goal_pre = env.goal_reached(state)
     with scripted:
         with stubs.sut():
             if level == 'net':
                 ns, res = net.perform_action(state, A.obj)
                 r.obs = r.reward = r.done = r.info = None
-            else:
+            elif level == 'gen':
                 ns, obs, reward, done, info = env.generative_step(state, A.obj)
                 r.obs, r.reward, r.done, r.info = obs, reward, done, info
+                res = None
+            else:
+                obs_arr, reward, done, lim, info = env.step(A.obj)
+                ns = env.current_state
+                r.obs_arr, r.obs, r.reward, r.done, r.lim, r.info = \
+                    obs_arr, env.last_obs, reward, done, lim, info
                 res = None
     r.ns = ns
     r.post_rows = tensor_rows(ns.tensor)
     r.state_rows_after = tensor_rows(state.tensor)
     r.post = scen.read_status(w, ns)
+    if env is not None:
+        r.steps1 = sx.znum(env.steps)
+        r.cur_rows1 = tensor_rows(env.current_state.tensor)
+        r.lastobs_rows1 = tensor_rows(env.last_obs.tensor)
     if res is not None:
         r.res = result_fields(res)
         r.res_obj = res
